@@ -1410,9 +1410,12 @@ static void run_eval_step(sexp ctx, sexp env, const std::string& src, StepResult
 static int g_base_fds = 0;
 static bool g_destroyed = false;
 
+static void run_c13(const js::Value& plan);
+
 static void run_plan(const js::Value& plan) {
   g_plan = &plan;
   g_plan_id = plan.geti("id", 0);
+  if (plan.get("c13")) { run_c13(plan); return; }
   configure_world(plan);
   configure_streams(plan);
   sexp ctx = W.ctx, env = W.env;
@@ -1499,6 +1502,346 @@ static void run_plan(const js::Value& plan) {
       g_results.push_back(std::move(sr));
     }
   }
+  W.gc_armed = false;
+  finish_and_exit("ok");
+}
+
+
+// ---------------------------------------------------------------------------
+// C13: independent contexts driven from different OS threads. Real pthreads, one per task, parked on
+// semaphores; exactly one holds the baton. At every switch point (allocation hook, VM tick, around
+// create / import / destroy) the holder asks the tape who runs next, so the interleaving is the tape's.
+
+struct C13Task {
+  int id = 0;
+  pthread_t th;
+  sem_t sem;
+  bool done = false, started = false;
+  sexp ctx = nullptr, env = nullptr;
+  size_t heap = 0, heap_max = 0;
+  std::vector<std::string> imports, steps;
+  std::vector<StepResult> results;
+  std::string error;
+  char* obuf = nullptr; size_t olen = 0, oconsumed = 0; FILE* of = nullptr; sexp oport = nullptr;
+  uint64_t allocs = 0, gcs = 0, ticks = 0;
+  int yield_every = 1;
+  uint64_t gc_p1024 = 0; Rng rng{1};
+  bool in_gc = false;
+  sexp_proc1 real_sched = nullptr; sexp real_sched_op = nullptr;
+};
+
+struct StaticSeg { char* base; size_t len; std::string name; std::vector<char> snap; };
+
+struct C13 {
+  bool active = false;
+  std::vector<C13Task*> tasks;
+  int cur = -1;
+  std::vector<int64_t> tape; size_t ti = 0;
+  uint64_t switches = 0;
+  uint64_t sw_hash = FNV0;
+  std::vector<StaticSeg> segs;
+  std::map<char*, std::pair<int, uint64_t>> static_writer;   // word address -> (task, value written)
+  sem_t main_sem;
+  bool check_statics = true;
+};
+static C13 X;
+
+// raw byte access to other modules' data segments (their ASan global red zones are not ours to respect)
+__attribute__((no_sanitize("address"), noinline)) static void raw_copy(char* dst, const char* src, size_t n) {
+  for (size_t i = 0; i < n; ++i) ((volatile char*)dst)[i] = ((const volatile char*)src)[i];
+}
+__attribute__((no_sanitize("address"), noinline)) static uint64_t raw_word(const char* p) {
+  uint64_t v = 0;
+  for (int i = 7; i >= 0; --i) v = (v << 8) | (unsigned char)((const volatile char*)p)[i];
+  return v;
+}
+__attribute__((no_sanitize("address"), noinline)) static bool raw_differs(const char* a, const char* b, size_t n) {
+  for (size_t i = 0; i < n; ++i) if (((const volatile char*)a)[i] != ((const volatile char*)b)[i]) return true;
+  return false;
+}
+
+static int c13_phdr_cb(struct dl_phdr_info* info, size_t, void*) {
+  std::string nm = info->dlpi_name ? info->dlpi_name : "";
+  bool chibi = nm.find("libchibi-scheme") != std::string::npos || nm.find("/lib/chibi/") != std::string::npos ||
+               nm.find("/lib/srfi/") != std::string::npos || nm.find("/lib/scheme/") != std::string::npos;
+  if (!chibi) return 0;
+  for (int i = 0; i < info->dlpi_phnum; ++i) {
+    const ElfW(Phdr)& ph = info->dlpi_phdr[i];
+    if (ph.p_type == PT_LOAD && (ph.p_flags & PF_W)) {
+      char* base = (char*)(info->dlpi_addr + ph.p_vaddr);
+      bool known = false;
+      for (auto& s : X.segs) if (s.base == base) known = true;
+      if (!known) {
+        StaticSeg sg; sg.base = base; sg.len = ph.p_memsz; sg.name = nm;
+        sg.snap.resize(sg.len);
+        raw_copy(sg.snap.data(), base, sg.len);
+        X.segs.push_back(std::move(sg));
+      }
+    }
+  }
+  return 0;
+}
+
+static bool c13_in_any_heap(void* p, int* owner) {
+  for (auto* t : X.tasks) {
+    if (!t->ctx || t->done) continue;
+    for (sexp_heap h = sexp_context_heap(t->ctx); h; h = h->next)
+      if ((char*)p >= (char*)h->data && (char*)p < (char*)h->data + h->size) { if (owner) *owner = t->id; return true; }
+  }
+  return false;
+}
+
+// attribute every static word that changed since the last look to the task that just ran
+static void c13_scan_statics(int ran) {
+  if (!X.check_statics) return;
+  dl_iterate_phdr(c13_phdr_cb, nullptr);   // picks up modules loaded meanwhile (their initial image is the snapshot)
+  char msg[256];
+  for (auto& sg : X.segs) {
+    if (!raw_differs(sg.base, sg.snap.data(), sg.len)) continue;
+    for (size_t off = 0; off + 8 <= sg.len; off += 8) {
+      uint64_t now = raw_word(sg.base + off), old;
+      memcpy(&old, sg.snap.data() + off, 8);
+      if (now == old) continue;
+      char* addr = sg.base + off;
+      int owner = -1;
+      if ((now & 7) == 0 && c13_in_any_heap((void*)now, &owner)) {
+        snprintf(msg, sizeof msg, "static word %s+0x%zx now holds an address inside the heap of context %d (written while task %d ran)",
+                 sg.name.c_str(), (size_t)(addr - sg.base), owner, ran);
+        W.violate("static:holds-context-object", msg);
+      }
+      auto it = X.static_writer.find(addr);
+      if (it != X.static_writer.end() && it->second.first != ran && it->second.second != now) {
+        snprintf(msg, sizeof msg, "static word %s+0x%zx written by task %d (0x%llx) and then by task %d (0x%llx): mutable process-wide state shared between independent contexts",
+                 sg.name.c_str(), (size_t)(addr - sg.base), it->second.first, (unsigned long long)it->second.second, ran, (unsigned long long)now);
+        W.violate("static:shared-mutable", msg);
+      }
+      X.static_writer[addr] = std::make_pair(ran, now);
+      W.counters["static_words_written"]++;
+    }
+    raw_copy(sg.snap.data(), sg.base, sg.len);
+  }
+}
+
+static void c13_switch(const char* point) {
+  if (!X.active || X.cur < 0) return;
+  C13Task* me = X.tasks[X.cur];
+  std::vector<int> runnable;
+  for (auto* t : X.tasks) if (!t->done) runnable.push_back(t->id);
+  if (runnable.empty()) return;
+  bool exhausted = X.ti >= X.tape.size();
+  int64_t pick = exhausted ? 0 : X.tape[X.ti++];
+  int next;
+  if (exhausted) next = me->done ? runnable[0] : me->id;   // tape exhausted: run to completion in order
+  else next = runnable[(size_t)(pick < 0 ? -pick : pick) % runnable.size()];
+  if (next == me->id && !me->done) return;
+  c13_scan_statics(me->id);
+  X.switches++;
+  unsigned char rec[2] = {(unsigned char)me->id, (unsigned char)next};
+  X.sw_hash = fnv1a(X.sw_hash, rec, 2);
+  W.event("baton %d->%d at %s", me->id, next, point);
+  W.counters[std::string("switch_at:") + point]++;
+  X.cur = next;
+  sem_post(&X.tasks[next]->sem);
+  if (!me->done) {
+    sem_wait(&me->sem);
+  }
+}
+
+static C13Task* c13_task_of(sexp ctx) {
+  for (auto* t : X.tasks) if (t->ctx && sexp_context_heap(t->ctx) == sexp_context_heap(ctx)) return t;
+  return nullptr;
+}
+
+static void c13_hook_alloc(sexp ctx, size_t size) {
+  (void)size;
+  if (!X.active || X.cur < 0) return;
+  C13Task* t = X.tasks[X.cur];
+  if (t->in_gc) return;
+  t->allocs++;
+  if (t->ctx && t->gc_p1024 && sexp_context_heap(ctx) == sexp_context_heap(t->ctx) && (t->rng.next() & 1023) < t->gc_p1024 && t->gcs < 200) {
+    t->gcs++;
+    sexp_gc(ctx, NULL);
+  }
+  if (t->yield_every && (t->allocs % t->yield_every) == 0) c13_switch("alloc");
+}
+static void c13_hook_gc(sexp ctx, int phase) {
+  if (!X.active || X.cur < 0) return;
+  C13Task* t = X.tasks[X.cur];
+  if (phase == 0) { t->in_gc = true; return; }
+  if (phase == 2) {
+    C13Task* owner = c13_task_of(ctx);
+    if (owner) {
+      size_t before = W.violations.size();
+      walk_heap(ctx, 2, true);
+      W.heapchecks++;
+      if (W.violations.size() > before) W.event("heap check failed in context of task %d", owner->id);
+    }
+    if (W.poison)
+      for (sexp_heap h = sexp_context_heap(ctx); h; h = h->next) poison_free_chunks(h);
+    t->in_gc = false;
+  }
+}
+static sexp c13_scheduler(sexp ctx, sexp self, sexp_sint_t n, sexp root_thread) {
+  (void)self;
+  W.ticks++;
+  if (W.tick_budget && W.ticks > W.tick_budget) { W.violate("budget", "tick budget exceeded"); finish_and_exit("budget"); }
+  sexp res = ctx;
+  if (X.active && X.cur >= 0) {
+    C13Task* t = X.tasks[X.cur];
+    t->ticks++;
+    c13_switch("tick");
+    // green threads inside a context keep working: the context's own SRFI-18 scheduler decides which of ITS threads runs
+    if (t->real_sched) res = ((sexp_proc2)t->real_sched)(ctx, t->real_sched_op, n, root_thread);
+  }
+  if (sexp_contextp(res) && sexp_context_refuel(res) > 0) sexp_context_refuel(res) = W.default_quantum;
+  return res;
+}
+
+static void* c13_task_main(void* arg) {
+  C13Task* t = (C13Task*)arg;
+  sem_wait(&t->sem);
+  t->started = true;
+  BootCfg cfg;
+  cfg.heap = t->heap; cfg.heap_max = t->heap_max; cfg.imports = t->imports;
+  c13_switch("before-create");
+  std::string err;
+  sexp ctx = nullptr, env = nullptr;
+  // boot step by step so that switches can land between create / standard env / each import
+  ctx = sexp_make_eval_context(NULL, NULL, NULL, cfg.heap, cfg.heap_max);
+  if (!ctx || sexp_exceptionp(ctx)) { t->error = "cannot create context"; }
+  else {
+    t->ctx = ctx;
+    c13_switch("after-create");
+    sexp_gc_var3(tmp, e, res);
+    sexp_gc_preserve3(ctx, tmp, e, res);
+    e = sexp_load_standard_env(ctx, sexp_context_env(ctx), SEXP_SEVEN);
+    if (sexp_exceptionp(e)) t->error = "load_standard_env: " + exception_to_string(ctx, e);
+    else {
+      c13_switch("after-stdenv");
+      e = sexp_eval_string(ctx, "(mutable-environment '(scheme small))", -1, sexp_global(ctx, SEXP_G_META_ENV));
+      if (sexp_exceptionp(e)) t->error = "default env: " + exception_to_string(ctx, e);
+      else {
+        tmp = sexp_intern(ctx, "repl-import", -1);
+        res = sexp_env_ref(ctx, sexp_global(ctx, SEXP_G_META_ENV), tmp, SEXP_VOID);
+        tmp = sexp_intern(ctx, "import", -1);
+        sexp_env_define(ctx, e, tmp, res);
+        t->of = open_memstream(&t->obuf, &t->olen);
+        res = sexp_make_env(ctx);
+        sexp_env_parent(res) = e;
+        sexp_context_env(ctx) = res;
+        sexp_set_parameter(ctx, sexp_global(ctx, SEXP_G_META_ENV), sexp_global(ctx, SEXP_G_INTERACTION_ENV_SYMBOL), res);
+        env = res;
+        t->env = env;
+        tmp = sexp_make_output_port(ctx, t->of, SEXP_FALSE);
+        sexp_port_no_closep(tmp) = 1;
+        sexp_set_parameter(ctx, env, sexp_global(ctx, SEXP_G_CUR_OUT_SYMBOL), tmp);
+        sexp_set_parameter(ctx, env, sexp_global(ctx, SEXP_G_CUR_ERR_SYMBOL), tmp);
+        sexp_preserve_object(ctx, tmp);
+        t->oport = tmp;
+        for (auto& imp : t->imports) {
+          c13_switch("before-import");
+          std::string form = "(import " + imp + ")";
+          tmp = sexp_eval_string(ctx, form.c_str(), -1, env);
+          if (sexp_exceptionp(tmp)) { t->error = "import " + imp + ": " + exception_to_string(ctx, tmp); break; }
+          c13_switch("after-import");
+        }
+        // tick source for this context (the real SRFI-18 scheduler, if loaded, is replaced: green threads are not the subject here)
+        tmp = sexp_global(ctx, SEXP_G_THREADS_SCHEDULER);
+        if (tmp && sexp_opcodep(tmp) && sexp_opcode_func(tmp)) {
+          t->real_sched = sexp_opcode_func(tmp);
+          t->real_sched_op = tmp;
+          sexp_preserve_object(ctx, tmp);
+        }
+        tmp = sexp_make_foreign(ctx, "scheduler", 1, 0, "c13_scheduler", (sexp_proc1)c13_scheduler, SEXP_FALSE);
+        sexp_global(ctx, SEXP_G_THREADS_SCHEDULER) = tmp;
+      }
+    }
+    sexp_gc_release3(ctx);
+    if (t->error.empty()) {
+      for (auto& src : t->steps) {
+        StepResult sr;
+        run_eval_step(ctx, env, src, sr);
+        if (t->oport) sexp_flush(ctx, t->oport);
+        fflush(t->of);
+        sr.out.assign(t->obuf + t->oconsumed, t->olen - t->oconsumed);
+        t->oconsumed = t->olen;
+        t->results.push_back(std::move(sr));
+        c13_switch("between-steps");
+      }
+    }
+    c13_switch("before-destroy");
+    t->in_gc = true;   // no forced collections / switches from inside destroy's own sweep
+    sexp_destroy_context(ctx);
+    t->in_gc = false;
+    t->ctx = nullptr;
+  }
+  t->done = true;
+  c13_scan_statics(t->id);
+  // hand the baton to somebody else, or wake main when everybody is done
+  bool any = false;
+  for (auto* o : X.tasks) if (!o->done) any = true;
+  if (any) c13_switch("after-destroy");
+  else sem_post(&X.main_sem);
+  return nullptr;
+}
+
+static void run_c13(const js::Value& plan) {
+  const js::Value* cfg = plan.get("c13");
+  X.tape = cfg->getiv("tape");
+  X.check_statics = cfg->getb("check_statics", true);
+  W.default_quantum = cfg->geti("quantum", 200);
+  W.tick_budget = cfg->geti("tick_budget", 0);
+  W.ev_full = plan.getb("trace", false);
+  W.poison = cfg->getb("poison", true);
+  const js::Value* tasks = cfg->get("tasks");
+  int id = 0;
+  for (auto& tp : tasks->a) {
+    C13Task* t = new C13Task();
+    t->id = id++;
+    sem_init(&t->sem, 0, 0);
+    t->heap = tp->geti("heap", 0);
+    t->heap_max = tp->geti("heap_max", 0);
+    t->yield_every = (int)tp->geti("yield_every", 50);
+    t->gc_p1024 = tp->geti("gc_p1024", 0);
+    t->rng = Rng(tp->geti("gc_seed", 1));
+    const js::Value* im = tp->get("imports");
+    if (im) for (auto& e : im->a) t->imports.push_back(e->s);
+    const js::Value* st = tp->get("steps");
+    if (st) for (auto& e : st->a) t->steps.push_back(e->s);
+    X.tasks.push_back(t);
+  }
+  sem_init(&X.main_sem, 0, 0);
+  sexp_verif_hooks.alloc = c13_hook_alloc;
+  sexp_verif_hooks.gc = c13_hook_gc;
+  sexp_verif_hooks.took = hook_took;
+  sexp_verif_hooks.done = hook_done;
+  sexp_verif_hooks.heap = hook_heap;
+  W.gc_armed = true;     // arms the poison checks in hook_took
+  W.ctx = nullptr;
+  dl_iterate_phdr(c13_phdr_cb, nullptr);
+  for (auto* t : X.tasks) {
+    pthread_attr_t at;
+    pthread_attr_init(&at);
+    pthread_attr_setstacksize(&at, 16 << 20);
+    pthread_create(&t->th, &at, c13_task_main, t);
+  }
+  X.active = true;
+  X.cur = 0;
+  sem_post(&X.tasks[0]->sem);
+  sem_wait(&X.main_sem);
+  for (auto* t : X.tasks) pthread_join(t->th, nullptr);
+  X.active = false;
+  // results: steps of all tasks, flattened with a task marker
+  for (auto* t : X.tasks) {
+    StepResult hdr;
+    hdr.res = "task " + std::to_string(t->id) + (t->error.empty() ? "" : (" error: " + t->error));
+    hdr.exc = !t->error.empty();
+    hdr.allocs = t->allocs;
+    g_results.push_back(hdr);
+    for (auto& r : t->results) g_results.push_back(r);
+  }
+  W.switches = X.switches;
+  W.sw_hash = X.sw_hash;
   W.gc_armed = false;
   finish_and_exit("ok");
 }
@@ -1602,7 +1945,7 @@ static void serve_one(int real_timeout_ms) {
   close(pfd[0]);
   int status = 0;
   while (waitpid(pid, &status, 0) < 0 && errno == EINTR) {}
-  bool have_line = len > 0 && hold[len - 1] == '\n';
+  bool have_line = len > 0 && len < cap && hold[len - 1] == '\n';
   if (have_line && !timed_out && WIFEXITED(status) && WEXITSTATUS(status) == 0) {
     raw_write_all(1, hold, len);
   } else {
